@@ -128,7 +128,7 @@ CLAIMED = {
             "Theorems (coq/props/C20.v, 18): C20_count, C20_generate_one, C20_conforms (+_many, _ranked, _fuel), C20_leaf_shape, C20_readable_*, C20_terminates_ranked, C20_refuted_rec_array. "
             "Tie: fastavro.utils.random / uuid replaced from outside by recording proxies; values of generate_many compared with the model's gen on the recorded stream; every value "
             "validated, written (schemaless + container) and read back.",
-            "Known findings F12 (RecursionError through arrays/maps) and K3 (str filed under a string-uuid branch cannot be read back) are reported as KNOWN-FINDING. 'accepted by writers and read back' is decided per case by the harness (needs C10 and C01 composed).", "§3 C20"),
+            "Known findings F12 (RecursionError through arrays/maps) and K3 (str filed under a string-uuid branch cannot be read back) are reported as KNOWN-FINDING. C20_written_and_read_back / C20_container_read_back: for schemas with an acyclic reference graph satisfying the computable side conditions gen_side, every generated value (every stream) validates, satisfies C10's wneed, is elaborated by the default writer to a well-typed wire value and read back as its documented normalisation, and a container written from generate_many's values reads back as exactly their wire values (composition of C20_conforms, C10_writer_accepts_iff, C01_roundtrip_normalised, C07 history_reads_back; float totality from GenFloats/FloatProofs, hence the Reals axioms); stored values only -- for the logical readers the schema must satisfy unions_plain (K3); recursive types are outside (F12).", "§3 C20"),
 }
 
 NOT_YET = "check not built yet in this round (model/theorems under construction; see DESIGN.md §12 build order)"
